@@ -44,8 +44,18 @@ def main():
         core.machinery_failure(str(e))
     except SystemExit:
         raise
-    except Exception:
+    except Exception as e:
+        from harness import par
         traceback.print_exc()
+        if isinstance(e, par.ImplementationFault) or par.innermost_in_repo(e.__traceback__) or par.remote_in_repo(e):
+            # the implementation raised (or never returned) where the check calls it on inputs the specification defines: that is a
+            # behaviour the specification does not allow, not a failure of the machinery
+            text = str(e) if isinstance(e, par.ImplementationFault) else (str(getattr(e, '__cause__', '') or '') + traceback.format_exc())[-3000:]
+            frun = core.Run(name, tier, seed)
+            frun.rule = 'aborted: the implementation raised or hung inside the harness'
+            last = [l.strip() for l in text.split('\n') if l.strip()][-1][:200]
+            frun.violation({'what': 'the implementation raised or did not return where the check expects a result', 'exception': last}, {'kind': 'traceback', 'text': text})
+            sys.exit(frun.finish())
         core.machinery_failure('harness exception')
     sys.exit(rc)
 
